@@ -465,14 +465,14 @@ pub fn merge_stats(j: &mut Judged, s: &crate::exec::Stats) {
 
 fn cases_c02(t: Tier) -> u64 {
 	match t {
-		Tier::Quick => 1600,
-		Tier::Thorough => 16000,
+		Tier::Quick => 3200,
+		Tier::Thorough => 24000,
 	}
 }
 fn cases_c07(t: Tier) -> u64 {
 	match t {
-		Tier::Quick => 1200,
-		Tier::Thorough => 12000,
+		Tier::Quick => 2000,
+		Tier::Thorough => 16000,
 	}
 }
 
